@@ -110,7 +110,8 @@ fn back_instance<const NP: usize, const NLIT: usize, const NSYM: usize>(prefix: 
     let k: usize = kani::any();
     kani::assume(k >= NLIT + 3 + 4 && k < 256);
     assert!(win[k] == 0xEE);
-    kani::cover!(rc == ReturnCode::DataError);
+    // a rejection is reachable exactly for the instances whose largest distance exceeds the data produced so far
+    kani::cover!(rc == ReturnCode::DataError || (dsym < 30 && (DBASE[dsym] + ((1 << DEXT[dsym]) - 1)) as usize <= NLIT), "too-far distance rejected");
     kani::cover!(dsym >= 30 || DBASE[dsym] as usize > NLIT || outd.total as usize >= NLIT + 3, "in-window match copied");
 }
 
